@@ -52,7 +52,7 @@ def gen_labels(rng, n):
 
 def gen_arcs(rng, n, simple):
     arcs = []
-    m = rng.randrange(1, 11 if n <= 6 else 19)
+    m = rng.randrange(1, 11 if n <= 6 else (19 if n <= 9 else 40))
     neg = rng.random() < 0.3
     ties = rng.random() < 0.5  # few distinct costs: many equal-cost augmenting paths, so relaxation order matters
     for _ in range(m):
@@ -86,6 +86,8 @@ def generate(rng, tier):
         mat = [[(rng.randrange(-8, 40) / 4.0 if dy else rng.randrange(-3, 12)) for _ in range(m)] for _ in range(n)]
         return {"kind": "assign", "matrix": mat, "seq_as": rng.choice(["list", "tuple"])}
     n = rng.randrange(2, 7 if tier == "quick" else 10)
+    if rng.random() < 0.04:
+        n = rng.randrange(8, 15)  # longer augmenting paths, deeper spanning trees
     simple = rng.random() < 0.5
     for _ in range(50):
         arcs = gen_arcs(rng, n, simple)
